@@ -16,6 +16,7 @@ import (
 
 	"github.com/idena-network/idena-go/blockchain/types"
 	"github.com/idena-network/idena-go/common"
+	"github.com/idena-network/idena-go/core/state"
 	"github.com/idena-network/idena-go/core/state/snapshot"
 	"github.com/idena-network/idena-go/core/validators"
 	"github.com/idena-network/idena-go/verifhook"
@@ -104,20 +105,33 @@ func buildSource(sc fsScript) *fsSource {
 	return src
 }
 
-// fastSync replays protocol/fast.go on F up to the manifest height m and switches.
+// fastSync replays protocol/fast.go on F up to the manifest height m and switches. It follows
+// preConsuming: a node that already has a preliminary head resumes from it (LoadPreliminary), and
+// drops the preliminaries and starts over when they cannot be loaded.
 func fastSync(F *replica.Replica, src *fsSource, m uint64) error {
 	chain := F.Chain
-	head := chain.Head
-	// preConsuming
-	chain.PreliminaryHead = head
-	idb, err := F.App.IdentityState.CreatePreliminaryCopy(head.Height())
-	if err != nil {
-		return fmt.Errorf("createPreliminaryCopy: %w", err)
+	var idb *state.IdentityStateDB
+	var err error
+	if chain.PreliminaryHead == nil {
+		chain.PreliminaryHead = chain.Head
+		if idb, err = F.App.IdentityState.CreatePreliminaryCopy(chain.Head.Height()); err != nil {
+			return fmt.Errorf("createPreliminaryCopy: %w", err)
+		}
+	} else if idb, err = F.App.IdentityState.LoadPreliminary(chain.PreliminaryHead.Height()); err != nil {
+		// dropPreliminaries
+		chain.RemovePreliminaryHead(nil)
+		chain.RemovePreliminaryConsensusVersion()
+		chain.RemovePreliminaryIntermediateGenesis()
+		F.App.IdentityState.DropPreliminary()
+		return fastSync(F, src, m)
 	}
 	vals := validators.NewValidatorsCache(idb, F.App.State.GodAddress())
 	vals.Load()
+	if chain.PreliminaryHead.Height() > m {
+		return fmt.Errorf("preliminary head %d above the manifest height %d", chain.PreliminaryHead.Height(), m)
+	}
 	// processBatch / applyDeferredBlocks, one block at a time
-	for h := head.Height() + 1; h <= m; h++ {
+	for h := chain.PreliminaryHead.Height() + 1; h <= m; h++ {
 		blk := src.block(h)
 		cert := src.r.Chain.GetCertificate(blk.Hash())
 		diff := src.r.Chain.GetIdentityDiff(h)
@@ -152,6 +166,9 @@ func fastSync(F *replica.Replica, src *fsSource, m uint64) error {
 		}
 	}
 	// postConsuming: the snapshot of the source at height m
+	if chain.PreliminaryHead.Height() != m {
+		return fmt.Errorf("preliminary head is lower than manifest's head")
+	}
 	SM, err := world.OpenAs(src.r.Opts, src.images[m], src.block(m).Header.Time(), world.G)
 	if err != nil {
 		return err
@@ -265,6 +282,46 @@ func fsRecover(run *report.Run, o replica.Opts, src *fsSource, cdb *crashdb.DB, 
 	if rb := ref.Chain.GetBlockHeaderByHeight(h); (rb == nil || rb.Hash() != rec.Chain.Head.Hash()) {
 		run.Violation("fast-sync:head-not-on-reference-chain", tag+": restarted head is not a block of the source chain", rp)
 		return false
+	}
+	// a node that restarted at its old head resumes the fast sync (a second restart on the same
+	// surviving database), and must arrive at the snapshot height in a consistent state
+	if h == h0 {
+		surv2 := crashdb.Apply(img, cdb.Log, k)
+		replica.SetTime(ref.Chain.Head.Time() + 1)
+		rec2, err := replica.New(o, surv2)
+		if err != nil {
+			run.Violation("fast-sync:startup-fails", tag+": second start-up fails: "+short(err.Error(), 300), rp)
+			return false
+		}
+		var rerr error
+		func() {
+			defer func() {
+				if p := recover(); p != nil {
+					rerr = fmt.Errorf("PANIC: %v", p)
+				}
+			}()
+			rerr = fastSync(rec2, src, m)
+		}()
+		run.Add("fast_sync_resumes", 1)
+		if rerr != nil {
+			run.Violation("fast-sync:resume-fails", fmt.Sprintf("%s: resuming the fast sync after the restart fails: %s", tag, short(rerr.Error(), 400)), rp)
+			return false
+		}
+		if rec2.Chain.Head.Height() != m || rec2.Chain.Head.Root() != rec2.App.State.Root() || rec2.Chain.Head.IdentityRoot() != rec2.App.IdentityState.Root() {
+			run.Violation("fast-sync:resume-result", fmt.Sprintf("%s: after the resumed fast sync head=%d, state root ok=%v, identity root ok=%v", tag, rec2.Chain.Head.Height(), rec2.Chain.Head.Root() == rec2.App.State.Root(), rec2.Chain.Head.IdentityRoot() == rec2.App.IdentityState.Root()), rp)
+			return false
+		}
+		for hh := m + 1; hh <= ref.Chain.Head.Height(); hh++ {
+			if aerr := rec2.Add(src.block(hh)); aerr != nil {
+				run.Violation("fast-sync:resumed-node-rejects-next-block", fmt.Sprintf("%s: after the resumed fast sync the node rejects canonical block %d: %v", tag, hh, aerr), rp)
+				return false
+			}
+		}
+		if rec2.Chain.Head.Hash() != ref.Chain.Head.Hash() || rec2.App.State.Root() != ref.App.State.Root() || rec2.App.IdentityState.Root() != ref.App.IdentityState.Root() {
+			run.Violation("fast-sync:resumed-node-diverges", tag+": after the resumed fast sync and catch-up head/roots differ from the source", rp)
+			return false
+		}
+		run.Outcome("fast sync: resumed after restart at old head")
 	}
 	// catch up with full blocks
 	for hh := h + 1; hh <= ref.Chain.Head.Height(); hh++ {
